@@ -13,16 +13,18 @@ structure Conserves (L : Char → Bool) (st : St) (d : Str) (st' : St) (d' : Str
   sok : stashOk L st'.stash = true
   dok : ok L st'.stash.length d' = true
   cons : lettersF L st'.stash d' = lettersF L st.stash d
+  html : st'.html = st.html
 
 theorem Conserves.refl {L : Char → Bool} {st : St} {d : Str} (hs : stashOk L st.stash = true)
     (hd : ok L st.stash.length d = true) : Conserves L st d st d :=
-  ⟨⟨[], by simp⟩, hs, hd, rfl⟩
+  ⟨⟨[], by simp⟩, hs, hd, rfl, rfl⟩
 
 theorem Conserves.trans {L : Char → Bool} {st st' st'' : St} {d d' d'' : Str} (h1 : Conserves L st d st' d')
     (h2 : Conserves L st' d' st'' d'') : Conserves L st d st'' d'' := by
   obtain ⟨e1, he1⟩ := h1.ext
   obtain ⟨e2, he2⟩ := h2.ext
-  exact ⟨⟨e1 ++ e2, by rw [he2, he1, List.append_assoc]⟩, h2.sok, h2.dok, by rw [h2.cons, h1.cons]⟩
+  exact ⟨⟨e1 ++ e2, by rw [he2, he1, List.append_assoc]⟩, h2.sok, h2.dok, by rw [h2.cons, h1.cons],
+    by rw [h2.html, h1.html]⟩
 
 theorem ext_length {st st' : St} (h : ∃ e, st'.stash = st.stash ++ e) : st.stash.length ≤ st'.stash.length := by
   obtain ⟨e, he⟩ := h; rw [he, List.length_append]; omega
@@ -42,7 +44,7 @@ theorem stash_put {L : Char → Bool} {st : St} {it : StashItem} {pre M post : S
     Conserves L st (pre ++ M ++ post) (stashNode st it).2 (pre ++ (stashNode st it).1 ++ post) := by
   simp only [stashNode]
   have hlen : (st.stash ++ [it]).length = st.stash.length + 1 := by simp
-  refine ⟨⟨[it], rfl⟩, by rw [stashOk_snoc, hs, hit]; rfl, ?_, ?_⟩
+  refine ⟨⟨[it], rfl⟩, by rw [stashOk_snoc, hs, hit]; rfl, ?_, ?_, rfl⟩
   · rw [hlen]
     exact ok_append (ok_append (ok_mono (Nat.le_succ _) hpre) (ok_placeholder L (Nat.lt_succ_self _)))
       (ok_mono (Nat.le_succ _) hpost)
@@ -98,9 +100,11 @@ structure NodeStep (L : Char → Bool) (st : St) (nd : Node) (st' : St) (nd' : N
   nok : nodeOk L st'.stash.length nd' = true
   kids : nd'.children = nd.children
   ta : nd'.textAtomic = nd.textAtomic
+  attrs : nd'.attrs = nd.attrs
   tailNone : nd.tail = none → nd'.tail = none
   ltext : lettersF L st'.stash (nd'.text.getD []) = lettersF L st.stash (nd.text.getD [])
   ltail : lettersF L st'.stash (nd'.tail.getD []) = lettersF L st.stash (nd.tail.getD [])
+  html : st'.html = st.html
 
 theorem hiNode_spec (hhi : HISpec L hi) {st st' : St} {nd nd' : Node} {pi : Nat}
     (hs : stashOk L st.stash = true) (hn : nodeOk L st.stash.length nd = true)
@@ -122,7 +126,8 @@ theorem hiNode_spec (hhi : HISpec L hi) {st st' : St} {nd nd' : Node} {pi : Nat}
       have hle2 := ext_length c2.ext
       obtain ⟨e1, he1⟩ := c1.ext
       obtain ⟨e2, he2⟩ := c2.ext
-      refine ⟨⟨e1 ++ e2, by rw [he2, he1, List.append_assoc]⟩, c2.sok, ?_, rfl, rfl, hnone, ?_, ?_⟩
+      refine ⟨⟨e1 ++ e2, by rw [he2, he1, List.append_assoc]⟩, c2.sok, ?_, rfl, rfl, rfl, hnone, ?_, ?_,
+        by rw [c2.html, c1.html]⟩
       · rw [nodeOk_iff]
         exact ⟨ok_mono hle2 c1.dok, c2.dok, kidsOk_mono (Nat.le_trans hle1 hle2) _ hn.2.2⟩
       · simp only []
@@ -145,7 +150,7 @@ theorem hiNodes_spec (hhi : HISpec L hi) (pi : Nat) :
       kidsOk L st.stash.length ns = true → hiNodes hi pi ns st = some (ns', st') →
       (∃ e, st'.stash = st.stash ++ e) ∧ stashOk L st'.stash = true ∧ kidsOk L st'.stash.length ns' = true ∧
         lettersK L st'.stash ns' = lettersK L st.stash ns ∧
-        (kidsNonAtomic ns = true → kidsNonAtomic ns' = true) := by
+        (kidsNonAtomic ns = true → kidsNonAtomic ns' = true) ∧ st'.html = st.html := by
   intro ns
   induction ns with
   | nil =>
@@ -153,7 +158,7 @@ theorem hiNodes_spec (hhi : HISpec L hi) (pi : Nat) :
     simp only [hiNodes, Option.some.injEq, Prod.mk.injEq] at h
     obtain ⟨h1, h2⟩ := h
     subst h1; subst h2
-    exact ⟨⟨[], by simp⟩, hs, rfl, rfl, fun h => h⟩
+    exact ⟨⟨[], by simp⟩, hs, rfl, rfl, fun h => h, rfl⟩
   | cons c r ih =>
     intro st st' ns' hs hk h
     rw [kidsOk_cons] at hk
@@ -169,19 +174,20 @@ theorem hiNodes_spec (hhi : HISpec L hi) (pi : Nat) :
         subst h1; subst h2
         have s1 := hiNode_spec hhi hs hk.1 hc
         have hle1 := ext_length s1.ext
-        obtain ⟨ext2, sok2, kok2, lk2, na2⟩ := ih _ _ _ s1.sok (kidsOk_mono hle1 _ hk.2) hr
+        obtain ⟨ext2, sok2, kok2, lk2, na2, hh2⟩ := ih _ _ _ s1.sok (kidsOk_mono hle1 _ hk.2) hr
         have hle2 := ext_length ext2
         obtain ⟨e1, he1⟩ := s1.ext
         obtain ⟨e2, he2⟩ := ext2
         have hc'ok := nodeOk_iff.1 s1.nok
         have hcok := nodeOk_iff.1 hk.1
-        refine ⟨⟨e1 ++ e2, by rw [he2, he1, List.append_assoc]⟩, sok2, kidsOk_cons.2 ⟨nodeOk_mono hle2 _ s1.nok, kok2⟩, ?_, ?_⟩
+        refine ⟨⟨e1 ++ e2, by rw [he2, he1, List.append_assoc]⟩, sok2, kidsOk_cons.2 ⟨nodeOk_mono hle2 _ s1.nok, kok2⟩, ?_, ?_,
+          by rw [hh2, s1.html]⟩
         rotate_left
         · intro hna
           rw [kidsNonAtomic_cons] at hna ⊢
           refine ⟨?_, na2 hna.2⟩
           have := nonAtomic_iff.1 hna.1
-          rw [nonAtomic_iff, s1.ta, s1.kids]; exact this
+          rw [nonAtomic_iff, s1.ta, s1.kids, s1.attrs]; exact this
         rw [lettersK_cons, lettersK_cons, lk2, lettersK_ext s1.ext hk.2,
           lettersF_ext ⟨e2, he2⟩ hc'ok.1, lettersF_ext ⟨e2, he2⟩ hc'ok.2.1, s1.ltext, s1.ltail,
           lettersK_ext ⟨e2, he2⟩ hc'ok.2.2, s1.kids, lettersK_ext s1.ext hcok.2.2]
